@@ -1154,7 +1154,7 @@ def gen_obj(rng, depth, lazy, counter, hashable=False):
     if depth <= 0 or rng.random() < 0.3:
         return c10.enc_scalar(rng.choice([None, True, 0, 1, 2, 7, 1.5, 'a', 'bc', '']))
     kinds = (['tuple', 'tuple', 'fset'] if hashable else
-             DOC_KINDS + (['iter', 'iter', 'fset', 'fdict'] if lazy else []))
+             DOC_KINDS + (['iter', 'iter', 'fset', 'fdict', 'kview', 'iview'] if lazy else []))
     k = rng.choice(kinds)
     n = rng.choice([0, 1, 2, 2, 3])
     me = counter[0]
@@ -1162,8 +1162,16 @@ def gen_obj(rng, depth, lazy, counter, hashable=False):
     if k in ('dict', 'fdict'):
         keys = rng.sample(['a', 'b', 'c', 'key', 1, 2], min(n, 6))
         return {'m': k, 'id': me, 'l': [[c10.enc_scalar(x), gen_obj(rng, depth - 1, lazy, counter, hashable)] for x in keys]}
-    if k in ('set', 'fset'):
+    if k in ('set', 'fset', 'kview'):
         return {'q': k, 'id': me, 'l': [gen_obj(rng, depth - 1, lazy, counter, True) for _ in range(n)]}
+    if k == 'iview':
+        # dict.items(): 2-tuples (key, value) the view makes anew at every iteration (their "id" names no host object)
+        out = []
+        for x in rng.sample(['a', 'b', 'c', 'key', 1, 2], min(n, 6)):
+            t = counter[0]
+            counter[0] += 1
+            out.append({'q': 'tuple', 'id': t, 'l': [c10.enc_scalar(x), gen_obj(rng, depth - 1, lazy, counter, False)]})
+        return {'q': k, 'id': me, 'l': out}
     return {'q': k, 'id': me, 'l': [gen_obj(rng, depth - 1, lazy, counter, hashable) for _ in range(n)]}
 
 
@@ -1177,9 +1185,11 @@ def build_obj(j, objs):
     else:
         items = [build_obj(x, objs) for x in j['l']]
         k = j['q']
+        mk = (dict, utils.FrozenDict)[j['id'] % 2]       # the views of a builtin dict / of a FrozenDict
         o = (tuple(items) if k == 'tuple' else items if k == 'list' else set(items) if k == 'set' else
-             frozenset(items) if k == 'fset' else iter(items))
-        if k in ('set', 'fset'):
+             frozenset(items) if k == 'fset' else mk((x, None) for x in items).keys() if k == 'kview' else
+             mk(items).items() if k == 'iview' else iter(items))
+        if k in ('set', 'fset', 'kview'):
             # the JSON follows the iteration order of the real set (equal elements collapse)
             j['l'] = [next(jx for jx, ox in zip(j['l'], items) if ox is x) for x in o]
         if k == 'iter':
@@ -1327,6 +1337,15 @@ def run_conv(world, drv, res, rng, tier, hist):
         res.traces += 1
         if 'err' in m or 'err' in real:
             me = {'unhashable': 'TypeError', 'tooLarge': 'CollectionTooLargeException'}.get(m.get('err'), m.get('err'))
+            if me != real.get('err') and {me, real.get('err')} == {'TypeError', 'CollectionTooLargeException'} \
+                    and case.get('lim') is not None:
+                # two faults in one value (an unhashable element AND an oversized collection): which one is met first
+                # depends on the iteration order of a set - accept either when the value has both (the model without the
+                # limit then reports the other fault)
+                m2 = drv.ask({'p': 'C09', 'cases': [dict(case, lim=None)]})['res'][0]
+                if m2.get('err') == 'unhashable':
+                    hist['conv-two-faults'] = hist.get('conv-two-faults', 0) + 1
+                    continue
             if me != real.get('err'):
                 res.fail('mismatch', 'conv-model', 'conv: model says %s, real code %s for %s' % (
                     m.get('err') or 'ok', real.get('err') or 'ok', short(case)), dict(part='conv', case=case))
